@@ -1,6 +1,7 @@
 import Hive.Proofs.WorkerPoolLog
 import Hive.Proofs.WorkerPoolGroup
 import Hive.Proofs.WorkerPoolGroupSd
+import Hive.Proofs.WorkerPoolSync
 import Hive.Proofs.WorkerPoolTerm
 import Hive.Gen.C16_Skel
 import Hive.Model.WorkerPoolSched
@@ -358,6 +359,31 @@ theorem C16_group_shutdown_orphan_example :
   decide
 
 end Hive.WPG
+
+/-! ### the black boxes the pool relies on: `syncutils.Stack` is a FIFO queue, `Counter.Update` returns the new value -/
+namespace Hive.WPS
+
+/-- The pool's queue hands tasks out in the order they were pushed (over the sequential model of `Stack` that the
+harness drives line by line against the real one): after pushing `xs` onto a queue holding `q`, popping everything
+yields `q ++ xs`.  (The protocol model keeps the queue as a set: the property does not depend on this order.) -/
+theorem C16_stack_fifo (q : Stk) (xs : List Int) :
+    Stk.popN (q.length + xs.length) (xs.foldl Stk.push q) = ([], q ++ xs) := popN_push q xs
+
+/-- `Counter.Update(d)` returns the value it stored, `old + d` — `decreasePendingTasks` compares exactly this with zero —
+over any sequence of updates the value is the start value plus the sum of the deltas, and callbacks run only for real
+changes: one per active subscriber, in subscription order. -/
+theorem C16_counter_update (c : Ctr) (d : Int) (ds : List Int) :
+    (c.update d).2 = (c.update d).1.value ∧ (c.update d).2 = c.value + d ∧
+    (updAll c ds).value = c.value + ds.sum ∧
+    (c.update d).1.log = if d = 0 then c.log else c.log ++ c.subs.map (fun i => (i, c.value, c.value + d)) := by
+  refine ⟨(update_returns_value c d).1, (update_returns_value c d).2, updAll_value c ds, ?_⟩
+  simp only [Ctr.update, change_log]
+  by_cases h : d = 0
+  · simp [h]
+  · have : ¬ (c.value + d = c.value) := by omega
+    simp [h, this]
+
+end Hive.WPS
 
 /-! ### Regenerated tie: the synchronisation skeletons the protocol model was written against
 
